@@ -26,7 +26,7 @@ import core
 import lib_evalorder as le
 
 PROP = "C20"
-CFG = {"quick": ("EvalOrder_quick", 12), "thorough": ("EvalOrder_thorough", 3)}
+CFG = {"quick": ("EvalOrder_quick", 24), "thorough": ("EvalOrder_thorough", 3)}
 BATCH = 220          # functions per generated module
 ALL_FORMS = {"getitem", "slice", "getattr", "add", "neg", "lt", "lt3", "in", "notin", "and", "or", "not", "cond",
              "tuple", "list", "set", "dict1", "dict2", "fstr", "fspec", "ret", "assign", "aug", "unpack",
@@ -52,6 +52,16 @@ def _bintnorm(log):
     return out
 
 
+def collapse(log):
+    """not observed: an immediately repeated truth test of the same object ((a or b) or c tests a twice in CPython)"""
+    out = []
+    for ev in log:
+        if out and ev == out[-1] and ev.endswith(".bool()"):
+            continue
+        out.append(ev)
+    return out
+
+
 def _msd(a, b):
     ca, cb = collections.Counter(a), collections.Counter(b)
     return sum(((ca - cb) + (cb - ca)).values())
@@ -61,12 +71,29 @@ def _ids(log):
     return [_FRESH.sub("V#", ev) for ev in log]
 
 
-def features(ast, ty):
-    """spec-side case features beyond lib_evalorder.descriptor"""
-    f = {"method_call_args": False, "aug_target": ""}
+def _digits(p):
+    d = []
+    while p:
+        d.append(p % 8)
+        p //= 8
+    return d[::-1]
+
+
+def features(ast, ty, log=(), exc=""):
+    """spec-side case features beyond lib_evalorder.descriptor (from the AST, the typing and the EXPECTED log)"""
+    f = {"method_call_args": False, "aug_target": "", "cmp_chain_raise_in_later_operand": False}
+    # the leaf that raises (spec side) lies in the third operand of an object-typed comparison chain
+    if exc and log and re.match(r"L\d+$", log[-1]):
+        q = _digits(int(log[-1][1:]))
+
+        def walk3(e, p, dp):
+            if e["t"] == "lt3" and le.ctype(e, p, ty) == "obj" and q[:len(dp) + 1] == dp + [3]:
+                return True
+            return any(walk3(c, 8 * p + j, dp + [j]) for j, c in enumerate(e["a"], 1))
+        f["cmp_chain_raise_in_later_operand"] = walk3(ast, 0, [])
 
     def walk(e):
-        if e["t"] == "call" and e["a"][0]["t"] == "getattr" and len(e["sig"]) > 0:
+        if e["t"] == "call" and e["a"][0]["t"] == "getattr" and len(e["sig"]) > 0 and set(e["sig"]) <= {"p", "k"}:
             f["method_call_args"] = True
         for c in e["a"]:
             walk(c)
@@ -92,11 +119,13 @@ def analyse(desc, want, got):
     obs_class is computed from the observation; the matchers combine it with spec-side descriptor fields."""
     if isinstance(got, str):
         return ["crash" if got.startswith("CRASH") else "timeout"]
-    w, wexc = list(want[0]), want[1]
-    g, gexc = list(got[0]), got[1]
+    w, wexc = collapse(want[0]), want[1]
+    g, gexc = collapse(got[0]), got[1]
     if (w, wexc) == (g, gexc):
         return []
     classes = []
+    if desc.get("cmp_chain_raise_in_later_operand"):
+        return ["wrong-after-double-decref"]
     # (1) bool index arriving as int
     wb, gb = _bintnorm(w), _bintnorm(g)
     if _msd(wb, gb) < _msd(w, g):
@@ -226,7 +255,8 @@ def vacuity(cases):
             cnt["falsy-leaf"] += 1
         le.forms(c["ast"], seen_forms)
     base = {f.split(":")[0] for f in seen_forms}
-    missing = (ALL_FORMS | {"call", "L", "N"}) - base
+    # target kinds belong to the sub-sampled statement families: a small sample may lack one of them
+    missing = (ALL_FORMS | {"call", "L", "N"}) - base - {"tN", "tslice", "tattr"}
     need = ["stmt:ret", "stmt:assign", "stmt:aug", "stmt:unpack", "typing:O", "typing:I", "typing:M", "raise",
             "short-circuit-skip", "falsy-leaf"]
     lacking = [k for k in need if cnt[k] == 0]
@@ -277,7 +307,7 @@ def run(tier, seed):
         for cs, rs, w in zip(m["idx"], res, m["work"]):
             for k, c in enumerate(cs):
                 got = rs if isinstance(rs, str) else rs[k]
-                if got != [c["log"], c["exc"]]:
+                if got != [c["log"], c["exc"]]:      # S must equal CPython literally (incl. repeated truth tests)
                     n_drift += 1
                     rep.spec_drift("EvalOrder vs CPython", {"source": le.stmt(c["ast"], c["ty"])[0], "out": c["out"],
                                                             "spec": [c["log"], c["exc"]], "cpython": got})
@@ -293,10 +323,25 @@ def run(tier, seed):
         d = os.path.dirname(b.so)
         le.write_runtime(d)
         keep = [i for i, w in enumerate(m["work"]) if w[0] not in m["dropped"]]
-        res = le.run_work(d, "C", b.so, [m["work"][i] for i in keep], "c_" + m["name"])
+        # cases in which the model predicts undefined behaviour of the compiled code (KF-C20-5) run in a child of their own
+        hz = {i: [k for k, c in enumerate(m["idx"][i]) if features(c["ast"], c["ty"], c["log"], c["exc"])["cmp_chain_raise_in_later_operand"]]
+              for i in keep}
+        safe = [[m["work"][i][0], [v for k, v in enumerate(m["work"][i][1]) if k not in hz[i]]] for i in keep]
+        res = le.run_work(d, "C", b.so, safe, "c_" + m["name"])
+        hkeep = [i for i in keep if hz[i]]
+        hres = le.run_work(d, "C", b.so, [[m["work"][i][0], [m["work"][i][1][k] for k in hz[i]]] for i in hkeep], "h_" + m["name"]) if hkeep else []
         full = [None] * len(m["work"])
         for i, r0 in zip(keep, res):
-            full[i] = r0
+            if isinstance(r0, str):
+                full[i] = r0
+                continue
+            it = iter(r0)
+            full[i] = [None if k in hz[i] else next(it) for k in range(len(m["work"][i][1]))]
+        for i, r0 in zip(hkeep, hres):
+            if isinstance(full[i], str):
+                continue
+            for n, k in enumerate(hz[i]):
+                full[i][k] = r0 if isinstance(r0, str) else r0[n]
         return full
 
     with concurrent.futures.ThreadPoolExecutor(jobs) as ex:
@@ -327,13 +372,13 @@ def run(tier, seed):
                 n_eval += 1
                 if len(c["lp"]) >= 2:
                     nontrivial.add((w[0], "".join(c["out"])))
-                if got == want:
+                if not analyse({}, want, got):
                     n_agree += 1
                     if len(ok_samples) < 2000:
                         ok_samples.append((c, got))
                     continue
                 desc = le.descriptor(c["ast"], c["ty"], c["exc"])
-                desc.update(features(c["ast"], c["ty"]))
+                desc.update(features(c["ast"], c["ty"], c["log"], c["exc"]))
                 for oc in analyse(desc, want, got):
                     classes[oc] += 1
                     rep.disagree(desc, oc, {"source": le.stmt(c["ast"], c["ty"])[0], "typing": c["ty"], "leaf_paths": c["lp"],
